@@ -61,6 +61,12 @@ type qCase struct {
 	Rates    []int    `json:"rates,omitempty"` // mid-stream rate changes
 	Writers  [][]spec `json:"writers"`
 	Infos    []uint32 `json:"infos,omitempty"` // pacing: StreamInfo.SSRC per stream (default 1000+w)
+	// Hold > 0: the next writers of the streams, when called for the first Hold deliveries, do not look at the packet
+	// at once: first the pacer's own goroutine (inline, from inside the next writer's call) and then a second goroutine
+	// (while the call waits for it) each write one packet of Extra on an additional stream len(Writers). This forces
+	// the interleaving "a Write runs between the pacer taking a packet off its queue and the next writer consuming it".
+	Hold  int    `json:"hold,omitempty"`
+	Extra []spec `json:"extra,omitempty"`
 	Conc     bool     `json:"conc"`
 	Burst    int64    `json:"burst"`
 	Accepted [][]pk   `json:"-"`
@@ -142,14 +148,14 @@ func (c *collector) writer(w int64) interceptor.RTPWriter {
 	})
 }
 
-func (c *collector) wait(total int, quiet time.Duration, max time.Duration) {
+func (c *collector) wait(total func() int, quiet time.Duration, max time.Duration) {
 	start := time.Now()
 	for {
 		c.mu.Lock()
 		n := len(c.got)
 		last := c.last
 		c.mu.Unlock()
-		if n >= total {
+		if n >= total() {
 			// a little longer: a duplicate would show up now
 			time.Sleep(15 * time.Millisecond)
 
@@ -169,9 +175,51 @@ func (c *collector) wait(total int, quiet time.Duration, max time.Duration) {
 func runQ(c qCase, fails *[]cq.ImplFailure) qCase {
 	col := &collector{}
 	nw := len(c.Writers)
-	ws := make([]interceptor.RTPWriter, nw)
+	ns := nw // streams: one per writer, plus one for the packets written during next-writer calls
+	if c.Hold > 0 {
+		ns++
+	}
+	ws := make([]interceptor.RTPWriter, ns)
 	var closer func() error
 	var setRate func(int)
+	c.Accepted = make([][]pk, ns)
+	var total atomic.Int64
+	var mu sync.Mutex
+	var held atomic.Int64
+	// next writer of stream w: a plain collector, or (Hold) one that lets two Writes happen before it looks at the packet
+	next := func(w int) interceptor.RTPWriter {
+		inner := col.writer(int64(w))
+		if c.Hold == 0 || w == nw {
+			return inner
+		}
+
+		return interceptor.RTPWriterFunc(func(h *rtp.Header, p []byte, a interceptor.Attributes) (int, error) {
+			if k := int(held.Add(1)) - 1; k < c.Hold && 2*k+1 < len(c.Extra) {
+				extra := func(s spec) {
+					eh, ep := build(nw, hdrSSRC(c.Kind, c.Infos, ns, nw, s), s)
+					want := toPk(int64(nw), eh, ep)
+					if _, err := ws[nw].Write(eh, ep, interceptor.Attributes{}); err == nil {
+						mu.Lock()
+						c.Accepted[nw] = append(c.Accepted[nw], want)
+						mu.Unlock()
+						total.Add(1)
+					}
+					for j := range ep {
+						ep[j] = 0xEE
+					}
+				}
+				extra(c.Extra[2*k]) // on the pacer's goroutine
+				done := make(chan struct{})
+				go func() { defer close(done); extra(c.Extra[2*k+1]) }()
+				select {
+				case <-done:
+				case <-time.After(2 * time.Second):
+				}
+			}
+
+			return inner.Write(h, p, a)
+		})
+	}
 	switch c.Kind {
 	case "pacing":
 		f := pacing.NewInterceptor(pacing.InitialRate(c.Rate), pacing.Interval(time.Millisecond))
@@ -179,8 +227,8 @@ func runQ(c qCase, fails *[]cq.ImplFailure) qCase {
 		if err != nil {
 			panic(err)
 		}
-		for w := 0; w < nw; w++ {
-			ws[w] = ic.BindLocalStream(&interceptor.StreamInfo{SSRC: infoSSRC(c.Infos, w)}, col.writer(int64(w)))
+		for w := 0; w < ns; w++ {
+			ws[w] = ic.BindLocalStream(&interceptor.StreamInfo{SSRC: infoSSRC(c.Infos, w)}, next(w))
 		}
 		closer = ic.Close
 		setRate = func(r int) { f.SetRate("x", r) }
@@ -192,17 +240,14 @@ func runQ(c qCase, fails *[]cq.ImplFailure) qCase {
 		}
 	default:
 		p := gcc.NewLeakyBucketPacer(c.Rate)
-		for w := 0; w < nw; w++ {
-			p.AddStream(uint32(1000+w), col.writer(int64(w))) //nolint:gosec
+		for w := 0; w < ns; w++ {
+			p.AddStream(uint32(1000+w), next(w)) //nolint:gosec
 			ws[w] = p
 		}
 		closer = p.Close
 		setRate = p.SetTargetBitrate
 		c.Burst = 0
 	}
-	c.Accepted = make([][]pk, nw)
-	total := 0
-	var mu sync.Mutex
 	send := func(w int) {
 		for i, s := range c.Writers[w] {
 			h, p := build(w, hdrSSRC(c.Kind, c.Infos, nw, w, s), s)
@@ -214,8 +259,8 @@ func runQ(c qCase, fails *[]cq.ImplFailure) qCase {
 				}
 				mu.Lock()
 				c.Accepted[w] = append(c.Accepted[w], want)
-				total++
 				mu.Unlock()
+				total.Add(1)
 			}
 			// the caller reuses its buffers immediately
 			for k := range p {
@@ -248,7 +293,7 @@ func runQ(c qCase, fails *[]cq.ImplFailure) qCase {
 			send(w)
 		}
 	}
-	col.wait(total, 2500*time.Millisecond, 15*time.Second)
+	col.wait(func() int { return int(total.Load()) }, 2500*time.Millisecond, 15*time.Second)
 	done := make(chan struct{})
 	go func() { _ = closer(); close(done) }()
 	select {
@@ -628,6 +673,23 @@ func genQ(r *rand.Rand, kind string, i int) (qCase, []string) {
 	for w := 0; w < nw; w++ {
 		c.Writers = append(c.Writers, genSpecs(r, 2+r.Intn(12), big && w == 0))
 	}
+	if i%4 == 3 && !big {
+		n := 0
+		for _, w := range c.Writers {
+			n += len(w)
+		}
+		c.Hold = 1 + r.Intn(n)
+		c.Extra = genSpecs(r, 2*c.Hold, false)
+		for k := range c.Extra {
+			if c.Extra[k].PayLen < 200 { // long enough to be seen if it lands in somebody else's buffer
+				c.Extra[k].PayLen = 200 + r.Intn(1000)
+			}
+			if c.Extra[k].PayLen > 1400 { // never of burst size: nothing blocks the head of the line
+				c.Extra[k].PayLen = 1400
+			}
+		}
+		b = append(b, "write-during-next-writer-call")
+	}
 	if kind == "pacing" {
 		c.Infos, b = varySSRC(r, c.Writers, b)
 	}
@@ -639,6 +701,11 @@ func genQ(r *rand.Rand, kind string, i int) (qCase, []string) {
 				if c.Writers[w][k].PayLen > 1400 {
 					c.Writers[w][k].PayLen = 1400
 				}
+			}
+		}
+		for k := range c.Extra {
+			if c.Extra[k].PayLen > 1400 {
+				c.Extra[k].PayLen = 1400
 			}
 		}
 	}
